@@ -56,6 +56,15 @@ def check_image(ctx, monitor, t, obj, res, opname, what_prefix="", tol_scale=1.0
     if S.coll_shape(res) != tuple(cshape):
         ctx.judge(monitor, False, [t, obj], what=f"{what_prefix}result collection shape {S.coll_shape(res)} != {tuple(cshape)}", op=opname, feat=feat)
         return False
+    if not isinstance(obj, PolytopeTensor):
+        # the result is of the same kind as the operand: the same numbers of covariant / contravariant indices, on the trailing axes
+        k = len(cshape)
+        off = res.rank - obj.rank
+        want_cov, want_con = {i + off for i in obj._covariant_indices}, {i + off for i in obj._contravariant_indices}
+        if set(res._covariant_indices) != want_cov or set(res._contravariant_indices) != want_con or min(want_cov | want_con, default=k) < k:
+            ctx.judge(monitor, False, [t, obj], what=f"{what_prefix}index types of the result (covariant {sorted(res._covariant_indices)}, contravariant {sorted(res._contravariant_indices)}) are not "
+                      f"those of the operand shifted behind the {k} collection axes (covariant {sorted(want_cov)}, contravariant {sorted(want_con)})", op=opname, feat=feat)
+            return False
     ok_all = True
     for pos in R.positions(tuple(cshape), 16):
         M = _elem_matrix(t, pos, cshape)
@@ -318,6 +327,17 @@ def g_powers(ctx, rng, i):
         tc * (g.Line(h) if dim == 2 else g.Plane(h))
         tc * t
         t * tc
+    # a transformation collection with more collection axes than the collection it acts on; the image is transformed again
+    tc2 = g.TransformationCollection(np.stack([ms, ms[::-1]]))  # shape (2, 4)
+    pc = g.PointCollection(np.stack([gen.finite_point(rng, dim, w=1) for _ in range(4)]))
+    hc = (g.LineCollection if dim == 2 else g.PlaneCollection)(np.stack([gen.nonzero_vec(rng, n, 5) for _ in range(4)]))
+    for x in (pc, hc):
+        try:
+            y = tc2 * x
+            t * y
+            tc2.inverse() * y
+        except Exception as e:
+            ctx.judge("apply", False, [tc2, x], what=f"(2,4) transformations applied to a (4,) collection, then transformed again: raised {type(e).__name__}: {e}", op="apply")
     # inverse on batches on both sides of the 64-matrix switch
     for cnt in (63, 64, 65):
         big = np.stack([_rand_matrix(rng, n, j % 4) for j in range(cnt)]).astype(float)
